@@ -429,6 +429,34 @@ func TestC17(t *testing.T) {
 			handle(fmt.Sprintf("seed%d/queue%d", run.Seed, i), []string{fmt.Sprintf("#cfg queue %d %d", r.Range(1, 3), r.PickInt(0, 2, 5))}, r)
 		}
 	}
+	if run.Thorough() && run.Findings() == 0 {
+		// all schedules of <= 5 environment actions of three callers of the deduplicating replicator
+		// (two asking for object 0, one for objects 0 and 1); lines that are not enabled are skipped,
+		// so many sequences collapse onto the same executed schedule
+		var alphabet []string
+		for i := 0; i < 3; i++ {
+			alphabet = append(alphabet, fmt.Sprintf("d.sink %d auto", i), fmt.Sprintf("d.sink %d err 14 %d", i, 10+i),
+				fmt.Sprintf("d.copy %d ok", i), fmt.Sprintf("d.copy %d err 13 %d", i, 20+i), fmt.Sprintf("d.cancel %d", i))
+		}
+		alphabet = append(alphabet, "d.call 0 0", "d.call 0 0 1", "d.evict 0")
+		count := 0
+		var rec func(prefix []string, depth int)
+		rec = func(prefix []string, depth int) {
+			if run.Findings() >= 20 {
+				return
+			}
+			if depth == 0 {
+				handle(fmt.Sprintf("exh/dedup%d", count), append([]string{"#cfg dedup", "d.call 0 0"}, prefix...), nil)
+				count++
+				return
+			}
+			for _, a := range alphabet {
+				rec(append(append([]string{}, prefix...), a), depth-1)
+			}
+		}
+		rec(nil, 4)
+		run.Extra("exhaustive_dedup_sequences", count)
+	}
 }
 
 // fixedCases are hand-written schedules for the situations the property names explicitly.
